@@ -15,6 +15,9 @@ T(c, tag) == IF c THEN {tag} ELSE {}
 RECURSIVE ConcatPayloads(_, _)
 ConcatPayloads(parts, i) == IF i > Len(parts) THEN <<>> ELSE Drop(parts[i], 6) \o ConcatPayloads(parts, i + 1)
 
+\* characters every GB18030 / GBK encoder writes as two octets: U+4E00..U+9FA5 and U+20AC
+TwoOctetText(t) == \A i \in 1..Len(t) : t[i] \in 19968..40869 \/ t[i] = 8364
+
 BadSplit(e) ==
   LET kindReq == Kind(e.proto, e.req)
       can == IF FullySpecified(kindReq) THEN CanRepresent(kindReq, e.text)
@@ -60,7 +63,11 @@ BadSplit(e) ==
                        \* "C14.cut": the fixed-width cut (every non-final payload is exactly the per-part size, UCS-2
                        \* payloads are whole code units) lands inside a multi-unit character; anything else that cuts
                        \* a character - another part size, half a UCS-2 code unit - is a different violation
-                       IF (\A i \in 1..(Len(parts) - 1) : Len(parts[i]) - 6 = PerOf(kind))
+                       \* "C14.cut.two_octet_text": a GB18030 text of characters that all take two octets (the hanzi of
+                       \* GBK and the euro sign) cannot be cut inside a character by an even part size - if it is, the
+                       \* encoder gave some character another width
+                       IF kind = "gb" /\ TwoOctetText(e.text) THEN "C14.cut.two_octet_text"
+                       ELSE IF (\A i \in 1..(Len(parts) - 1) : Len(parts[i]) - 6 = PerOf(kind))
                           /\ (kind = "ucs2" => \A i \in 1..Len(parts) : (Len(parts[i]) - 6) % 2 = 0)
                          THEN "C14.cut" ELSE "C14.cut.unaligned"))
           \cup T(Len(parts) > greedy, "C07.minimal"))
